@@ -133,7 +133,7 @@ FINAL = ["lcE", "ustrE", "ubc"]
 QUICK_FREE = ["id", "kwmsg", "sp", "tab", "lf", "cr", "semi", "lb", "rb", "bc3", "bcT", "bcN", "lc3", "str3", "strT",
               "ustr", "strBN", "bad", "nul", "stray"]
 QUICK_GAPS = ["lf", "tab", "bc3", "bcN", "ustr"]
-THOROUGH_GAPS = ["sp", "lf", "tab", "cr", "bc2", "bc4", "bcT", "bcN", "lc3", "str3", "ustr", "strBN", "bad", "stray"]
+THOROUGH_GAPS = ["lf", "tab", "cr", "bc4", "bcT", "bcN", "lc3", "ustr", "strBN"]
 
 SRCPOS_CFG = """SPECIFICATION Spec
 CONSTANTS
